@@ -175,7 +175,8 @@ BUILTIN_CLASSES = {"float": ["float", "numbers.Real", "object"], "int": ["int", 
                    "bool": ["bool", "int", "numbers.Real", "object"], "str": ["str", "object"], "NoneType": ["NoneType", "object"],
                    "dict": ["dict", "object"], "list": ["list", "object"], "tuple": ["tuple", "object"], "type": ["type", "object"],
                    "set": ["set", "object"]}
-KIND_CLASS = {"real": "float", "bool": "bool", "str": "str", "int": "int"}
+KIND_CLASS = {"real": "float", "bool": "bool", "str": "str", "int": "int", "slice": "slice"}
+BUILTIN_CLASSES["slice"] = ["slice", "object"]
 
 
 class World:
